@@ -24,6 +24,7 @@ import MysticVerif.Proofs.DiscreteNum
 import MysticVerif.Proofs.DiscreteImpose
 import MysticVerif.Proofs.DiscreteUpdate
 import MysticVerif.Proofs.DiscreteStats
+import MysticVerif.Proofs.DiscreteHeap
 import Mathlib.Algebra.Order.Field.Rat
 import Mathlib.Tactic.NormNum
 
@@ -790,5 +791,99 @@ example : pmMaximum (fun x : List ℚ => x.headD 0) ([[⟨1, 2⟩], []] : PM ℚ
   simp [pmMaximum, mMaximum, maximumL, singles, mpositions, allSome, maxL]
 example : pofValue (⟨exQ, [-1, 2, -3, 4]⟩ : Scen ℚ) (fun v => v) = 1/2 := by
   rw [pof_value_def, exQ_weights]; norm_num
+
+/-! ## shared objects (Model/DiscreteHeap): `update` / `load` on a collection whose factor objects are shared
+
+python's containers hold OBJECTS: `product_measure([m]*2 + [n])` uses one measure object for two factors,
+`product_measure(c)`, `c[:]`, `copy.copy(c)` hold the factor objects of `c`.  On the object graph (`Heap`: cells,
+measure objects, collection objects) with ARBITRARY sharing: -/
+
+section heap
+open MysticVerif.DiscreteHeap
+
+/-- **update, addressed collection (any sharing).** Whatever objects the collection shares with itself or with other
+collections, what python shows for it after `update(params)` is exactly the value-level `update` of what it showed
+before (and it raises exactly when that raises): so `update_spec` / `update_every_prefix` / `update_any_shape` hold for
+the addressed collection object, in particular `update(p).flatten() = p`. -/
+theorem heap_update_obs (h : Heap α) (hw : WF h) (cid : Nat) (hc : cid < h.colls.length) (params : List α) :
+    (hUpdate h cid params).map (fun h' => obsC h' cid) = update (obsC h cid) params := by
+  unfold hUpdate update
+  cases hu : unflatten (truncParams params (pts (obsC h cid))) (pts (obsC h cid)) with
+  | none => rfl
+  | some pm =>
+    obtain ⟨he, _, ho, _⟩ := allocPM_spec pm hw
+    have hc' : cid < (allocPM h pm).1.colls.length := by rw [he.2.2.1]; exact hc
+    simp only [Option.map_some]
+    rw [obsC_setColl_same hc', List.map_append, List.map_take, ho, List.map_drop, map_obsM_ext hw he cid]
+    simp [obsC]
+
+/-- **update, frame (any sharing).** `update` on one collection object changes nothing that python shows for ANY other
+collection object (also one built over the very same factor objects), for their values, or for any existing measure
+object: it only allocates new objects and rebinds the entries of the addressed list. -/
+theorem heap_update_frame (h h' : Heap α) (hw : WF h) (cid : Nat) (params : List α)
+    (hu : hUpdate h cid params = some h') :
+    (∀ cid', cid' ≠ cid → obsC h' cid' = obsC h cid') ∧ h'.vals = h.vals ∧
+      (∀ mid, mid < h.meas.length → obsM h' mid = obsM h mid) := by
+  unfold hUpdate at hu
+  cases hq : unflatten (truncParams params (pts (obsC h cid))) (pts (obsC h cid)) with
+  | none => rw [hq] at hu; cases hu
+  | some pm =>
+    rw [hq] at hu
+    simp only [Option.map_some, Option.some.injEq] at hu
+    subst hu
+    obtain ⟨he, _, _, _⟩ := allocPM_spec pm hw
+    refine ⟨?_, he.2.2.2.1, ?_⟩
+    · intro cid' hne
+      rw [obsC_setColl_other hne, obsC_ext hw he]
+    · intro mid hm
+      rw [obsM_setColl, obsM_ext hw he hm]
+
+/-- **load, addressed collection (any sharing).** What python shows for the collection after `load(params, pts)` is
+the value-level `load` of what it showed before: the factors already present keep their numbers, the new ones are
+appended. -/
+theorem heap_load_obs (h : Heap α) (hw : WF h) (cid : Nat) (hc : cid < h.colls.length) (params : List α) (p : List Nat) :
+    (hLoad h cid params p).map (fun h' => obsC h' cid) = load (obsC h cid) params p := by
+  unfold hLoad load
+  cases hu : unflatten (truncParams params p) p with
+  | none => rfl
+  | some pm =>
+    obtain ⟨he, _, ho, _⟩ := allocPM_spec pm hw
+    have hc' : cid < (allocPM h pm).1.colls.length := by rw [he.2.2.1]; exact hc
+    simp only [Option.map_some]
+    rw [obsC_setColl_same hc', List.map_append, ho, map_obsM_ext hw he cid]
+
+/-- **load, frame (any sharing).** `load` changes nothing that python shows for any other collection, for the values,
+or for any existing measure object. -/
+theorem heap_load_frame (h h' : Heap α) (hw : WF h) (cid : Nat) (params : List α) (p : List Nat)
+    (hu : hLoad h cid params p = some h') :
+    (∀ cid', cid' ≠ cid → obsC h' cid' = obsC h cid') ∧ h'.vals = h.vals ∧
+      (∀ mid, mid < h.meas.length → obsM h' mid = obsM h mid) := by
+  unfold hLoad at hu
+  cases hq : unflatten (truncParams params p) p with
+  | none => rw [hq] at hu; cases hu
+  | some pm =>
+    rw [hq] at hu
+    simp only [Option.map_some, Option.some.injEq] at hu
+    subst hu
+    obtain ⟨he, _, _, _⟩ := allocPM_spec pm hw
+    refine ⟨?_, he.2.2.2.1, ?_⟩
+    · intro cid' hne
+      rw [obsC_setColl_other hne, obsC_ext hw he]
+    · intro mid hm
+      rw [obsM_setColl, obsM_ext hw he hm]
+
+/-- `product_measure([m, m])` (one two-point measure object used for both factors) and a second collection over the
+same object: after `update` with four different blocks the first collection shows the four blocks, the second
+collection and the measure object `m` show the old numbers -/
+def exHeap : Heap Nat :=
+  { cells := [⟨1, 10⟩, ⟨2, 20⟩], meas := [[0, 1]], colls := [[0, 0], [0]], vals := [[], []], scen := [false, false] }
+
+example : WF exHeap := by
+  refine ⟨?_, ?_⟩ <;> simp [exHeap]
+
+example : (hUpdate exHeap 0 [3, 4, 30, 40, 5, 6, 50, 60]).map (fun h' => (obsC h' 0, obsC h' 1, obsM h' 0)) =
+    some ([[⟨3, 30⟩, ⟨4, 40⟩], [⟨5, 50⟩, ⟨6, 60⟩]], [[⟨1, 10⟩, ⟨2, 20⟩]], [⟨1, 10⟩, ⟨2, 20⟩]) := by decide
+
+end heap
 
 end MysticVerif.C19
